@@ -347,20 +347,24 @@ def dump_one(f: TextIO, data: IOData):
 
     # BASIS
     f.write("$BASIS\n")
-    iatom_last = 0
+    # The reader assigns shells to atoms by counting the "$$" separators, so the shells are
+    # written atom by atom, with one separator between consecutive atoms (also when an atom
+    # has no shells). The orbital coefficients are re-ordered in the same way.
     for shell in data.obasis.shells:
         if shell.ncon != 1:
             raise RuntimeError("Generalized contractions not supported. Call prepare_dump first.")
-        iatom_new = shell.icenter
-        if iatom_new != iatom_last:
+    for iatom in range(data.natom):
+        if iatom > 0:
             f.write("$$\n")
-        angmom = shell.angmoms[0]
-        kind = shell.kinds[0]
-        iatom_last = shell.icenter
-        nbasis = len(CONVENTIONS[(angmom, kind)])
-        f.write(f" {nbasis} {angmom_its(angmom).capitalize():1s} 1.00\n")
-        for exponent, coeff in zip(shell.exponents, shell.coeffs[:, 0]):
-            f.write(f"{exponent:20.10f} {coeff:17.10f}\n")
+        for shell in data.obasis.shells:
+            if shell.icenter != iatom:
+                continue
+            angmom = shell.angmoms[0]
+            kind = shell.kinds[0]
+            nbasis = len(CONVENTIONS[(angmom, kind)])
+            f.write(f" {nbasis} {angmom_its(angmom).capitalize():1s} 1.00\n")
+            for exponent, coeff in zip(shell.exponents, shell.coeffs[:, 0]):
+                f.write(f"{exponent:20.10f} {coeff:17.10f}\n")
     f.write("\n")
     f.write("$END\n")
     f.write("\n")
@@ -400,6 +404,13 @@ def dump_one(f: TextIO, data: IOData):
 # Defining help dumping functions
 def _dump_helper_coeffs(f, data, spin=None):
     permutation, signs = convert_conventions(data.obasis, CONVENTIONS)
+    # Rows follow the order in which the shells are written: grouped by atom.
+    shells = data.obasis.shells
+    shell_order = sorted(range(len(shells)), key=(lambda i: shells[i].icenter))
+    offsets = np.cumsum([0] + [shell.nbasis for shell in shells])
+    basis_order = np.concatenate([np.arange(offsets[i], offsets[i + 1]) for i in shell_order])
+    permutation = permutation[basis_order]
+    signs = signs[basis_order]
     if spin == "a":
         norb = data.mo.norba
         coeff = data.mo.coeffsa[permutation] * signs.reshape(-1, 1)
